@@ -41,3 +41,26 @@ func unwrapJSONNumber(input any) any {
 
 	return input
 }
+
+// unwrapDefault unwraps the json.Number values found in a default value,
+// including the ones nested in lists and objects.
+func unwrapDefault(input any) any {
+	switch val := input.(type) {
+	case []any:
+		unwrapped := make([]any, len(val))
+		for i, item := range val {
+			unwrapped[i] = unwrapDefault(item)
+		}
+
+		return unwrapped
+	case map[string]any:
+		unwrapped := make(map[string]any, len(val))
+		for key, item := range val {
+			unwrapped[key] = unwrapDefault(item)
+		}
+
+		return unwrapped
+	default:
+		return unwrapJSONNumber(input)
+	}
+}
